@@ -151,6 +151,10 @@ fn pipe2() -> anyhow::Result<[libc::c_int; 2]> {
 }
 
 pub fn run_command(cmdline: &str, mut output_cb: impl FnMut(&[u8])) -> anyhow::Result<Termination> {
+    #[cfg(n2_verif)]
+    if let Some(r) = crate::verif::scripted_run_command(cmdline, &mut output_cb) {
+        return r;
+    }
     // Spawn the subprocess using posix_spawn with output redirected to the pipe.
     // We don't use Rust's process spawning because of issue #14 and because
     // we want to feed both stdout and stderr into the same pipe, which cannot
